@@ -41,12 +41,14 @@ AXES = [
     ('time_dtype', ['uint64', 'int64']),
     ('alf_samples', [True, False]),
     ('alf_clock', ['rate', 'sync']),
+    ('geometry', ['grid', 'rect']),      # rect: sites share x and y values (still distinct positions)
     ('attrs', ['none', '1d', '2d', 'wronglen', 'col', 'row']),
     ('content', ['finite', 'nan_amp', 'inf_wm', 'nan_similar', 'nan_template', 'nan_features',
                  'nan_template_channel']),
     ('monotone', [True, False, 'ties']),    # ties: equal times are not a decrease
     ('channel_map', ['identity', 'perm', 'sub', 'sub_high']),
-    ('sample_rate', [100.0, 25000.0]),   # 7 / 25000 * 25000 truncates to 6: rounding matters
+    ('sample_rate', [100.0, 25000.0, 2500.5]),   # 7 / 25000 * 25000 truncates to 6: rounding matters; a
+                                                 # rate need not be a whole number
 ]
 AXDICT = dict(AXES)
 
